@@ -604,6 +604,36 @@ func TestC09Concurrent(t *testing.T) {
 		}
 		st.Close()
 		st.Remove()
+		// request-scoped contexts: every publish gets its own context that ends when the publish
+		// returns (and, on odd rounds, the bus adds a persistence timeout whose context ends likewise):
+		// later publishes must still be recorded
+		if st2, err := stores.Open(kind, scratch); err == nil {
+			var opts []ebu.Option
+			if i%2 == 1 {
+				opts = append(opts, ebu.WithPersistenceTimeout(time.Hour))
+			}
+			bus2 := ebu.New(append(opts, ebu.WithStore(st2.Store))...)
+			for k := 1; k <= 5; k++ {
+				ctx, cancel := context.WithCancel(context.Background())
+				ebu.PublishContext(bus2, ctx, ev{ID: k, S: "r"})
+				cancel()
+			}
+			n := 0
+			from := ebu.OffsetOldest
+			for step := 0; step < 100; step++ {
+				evs, next, err := st2.Store.Read(context.Background(), from, 0)
+				if err != nil || len(evs) == 0 {
+					break
+				}
+				n += len(evs)
+				from = next
+			}
+			if n != 5 {
+				run.Violation(fam+":record-count-request-scoped-contexts", fmt.Sprintf("5 sequential publishes on %s, each with its own context that ended after the publish returned (persistence timeout set: %v), produced %d records", kind, i%2 == 1, n), witness)
+			}
+			st2.Close()
+			st2.Remove()
+		}
 		run.Case(fmt.Sprintf("%s|P%d|E%d|p%d", kind, P, E, procs[i%len(procs)]), P >= 2)
 		run.Count("records_checked", int64(len(all)))
 		run.Count("handler_reads_that_found_own_record", int64(found.Load()))
